@@ -173,6 +173,34 @@ func checkC25(c *Ctx, r *Report) {
 					}
 				})
 				okc = budget && consumed
+				if !okc && consumed {
+					// do-while form: the count is tested non-zero before the loop is
+					// entered, and after each insertion the decremented counter is tested:
+					// the back edge is taken only on its non-zero side
+					entry := guardedBy(in, eqFact(func(b *ssa.BinOp) bool { return b.X == ssa.Value(nparam) && isConstZero(b.Y) }, false))
+					var dec ssa.Value
+					for _, e := range cnt.Edges {
+						if b, isB := e.(*ssa.BinOp); isB && b.Op == token.SUB && b.X == ssa.Value(cnt) {
+							dec = b
+						}
+					}
+					back := false
+					if dec != nil {
+						instrsOf(sf, func(in2 ssa.Instruction) {
+							b, isB := in2.(*ssa.BinOp)
+							if !isB || (b.Op != token.EQL && b.Op != token.NEQ) || b.X != dec || !isConstZero(b.Y) {
+								return
+							}
+							// zero side must leave the loop (not reach the insertion again)
+							for _, e := range condEdges(b, b.Op == token.EQL) {
+								if e.To != in.Block() && !reaches(e.To, in.Block()) {
+									back = true
+								}
+							}
+						})
+					}
+					okc = entry && back
+				}
 			}
 			r.Check(okc, r4, sf, "insertion consumes the budget", in, "on the remaining!=0 side, counter decremented", "an element is inserted into the sample without consuming one unit of the n-element budget (the sample can grow beyond n)")
 		})
@@ -181,22 +209,78 @@ func checkC25(c *Ctx, r *Report) {
 	// R2/R3: Sample call sites
 	r2 := r.Rule("R2", "flow", "each call of Set.Sample outside utils/stringset has a constant argument k with 1<=k<=3 and a receiver produced by a Resolve() call of the host list", 3)
 	r3 := r.Rule("R3", "E-ORDER/loop", "calls using the sampled host are inside the range loop over the sample without an inner loop, or after it only when k==1", 3)
+	// sample sources: a Sample call with a constant count, or — when the count is a
+	// parameter of a small wrapper that returns the sample — each call of that
+	// wrapper with a constant in the count position
+	type sampleSrc struct {
+		fn    *ssa.Function
+		instr ssa.CallInstruction
+		sv    ssa.Value
+		k     int64
+		ok    bool
+	}
+	constK := func(v ssa.Value) int64 {
+		if kc, ok := v.(*ssa.Const); ok && kc.Value != nil && kc.Value.Kind() == constant.Int {
+			k, _ := constant.Int64Val(kc.Value)
+			return k
+		}
+		return -1
+	}
+	var srcs []sampleSrc
 	for _, cs := range c.CallsTo("(utils/stringset.Set).Sample") {
 		fn := cs.Caller
 		if c.isFixture(fn) || pkgOf(fn) == "utils/stringset" {
 			continue
 		}
 		args := cs.Instr.Common().Args
-		k := int64(-1)
-		if kc, ok := args[1].(*ssa.Const); ok && kc.Value != nil && kc.Value.Kind() == constant.Int {
-			k, _ = constant.Int64Val(kc.Value)
-		}
 		fromResolve := mentions(args[0], func(v ssa.Value) bool {
 			return isCallTo(v, "(lib/hostlist.List).Resolve", "(lib/healthcheck.List).Resolve")
 		}, 4)
-		r.Check(k >= 1 && k <= 3 && fromResolve, r2, fn, "Sample", cs.Instr, fmt.Sprintf("k=%d from Resolve()", k),
-			fmt.Sprintf("Sample argument must be a constant in 1..3 (got %d) applied to the current host list (fromResolve=%v)", k, fromResolve))
-		sv := cs.Instr.Value()
+		if prm, isP := args[1].(*ssa.Parameter); isP && fromResolve {
+			// wrapper: the sample is what it returns
+			idx, ridx := -1, -1
+			for i, q := range fn.Params {
+				if q == prm {
+					idx = i
+				}
+			}
+			for _, ret := range returnsOf(fn) {
+				for i, rv := range ret.Results {
+					if mentions(unspill(rv), func(v ssa.Value) bool { return v == cs.Instr.Value() }, 4) {
+						ridx = i
+					}
+				}
+			}
+			callers := c.CallsTo(funcName(fn))
+			if idx >= 0 && ridx >= 0 && len(callers) > 0 {
+				for _, wc := range callers {
+					if c.isFixture(wc.Caller) {
+						continue
+					}
+					k := constK(wc.Instr.Common().Args[idx])
+					var sv ssa.Value
+					if fn.Signature.Results().Len() == 1 {
+						sv = wc.Instr.Value()
+					} else if rs := resultN(wc.Instr, ridx); len(rs) > 0 {
+						sv = rs[0]
+					}
+					srcs = append(srcs, sampleSrc{wc.Caller, wc.Instr, sv, k, k >= 1 && k <= 3 && sv != nil})
+				}
+				continue
+			}
+		}
+		k := constK(args[1])
+		srcs = append(srcs, sampleSrc{fn, cs.Instr, cs.Instr.Value(), k, k >= 1 && k <= 3 && fromResolve})
+	}
+	for _, src := range srcs {
+		fn, k := src.fn, src.k
+		cs := struct{ Instr ssa.CallInstruction }{src.instr}
+		r.Check(src.ok, r2, fn, "Sample", cs.Instr, fmt.Sprintf("k=%d from Resolve()", k),
+			fmt.Sprintf("Sample argument must be a constant in 1..3 (got %d) applied to the current host list", k))
+		sv := src.sv
+		if sv == nil {
+			continue
+		}
 		var loops []*RangeLoop
 		for _, l := range rangeLoops(fn) {
 			if mentions(l.Ranged, func(v ssa.Value) bool { return v == sv }, 4) {
@@ -204,6 +288,36 @@ func checkC25(c *Ctx, r *Report) {
 			}
 		}
 		if len(loops) == 0 {
+			// a single-host sample may be taken without a loop (ToSlice()[0]): every
+			// host contact then uses the one sampled element, outside any loop
+			if k == 1 {
+				okSingle, n1 := true, 0
+				instrsOf(fn, func(in ssa.Instruction) {
+					ci, ok := in.(ssa.CallInstruction)
+					if !ok || ci == cs.Instr {
+						return
+					}
+					cn := calleeName(ci.Common())
+					if cn == "(lib/healthcheck.List).Failed" || cn == "builtin.len" || cn == "(utils/stringset.Set).ToSlice" {
+						return
+					}
+					uses := false
+					for _, a := range ci.Common().Args {
+						if mentions(a, func(v ssa.Value) bool { return v == sv }, 8) {
+							uses = true
+						}
+					}
+					if !uses {
+						return
+					}
+					n1++
+					if reaches(in.Block(), in.Block()) {
+						okSingle = false
+					}
+				})
+				r.Check(okSingle && n1 > 0, r3, fn, "host contact after loop", cs.Instr, "single attempt with k==1", "the host taken from a one-element sample is contacted inside a loop")
+				continue
+			}
 			r.Bad(r3, fn, "sample loop", cs.Instr, "the sampled hosts are not iterated by a range loop: cannot bound the hosts contacted")
 			continue
 		}
